@@ -423,6 +423,9 @@ type CallSpec struct {
 	// ReservedFlags is OR'ed into the flags byte of every frame of the message: bits
 	// other than 0x01 are reserved and must be ignored by a decoder.
 	ReservedFlags byte
+	// BreakAfterArg1 ends the first frame right after arg1: the next frame then begins with
+	// the empty chunk that closes arg1, followed by arg2 (legal, and unusual)
+	BreakAfterArg1 bool
 }
 
 // EncCall encodes a complete call message into one or more frames following
@@ -501,6 +504,9 @@ func EncCall(c CallSpec) [][]byte {
 			}
 			if argi == 2 {
 				done = true
+				break
+			}
+			if first && argi == 0 && c.BreakAfterArg1 {
 				break
 			}
 		}
